@@ -530,38 +530,9 @@ var rR9v = RuleRef{Name: "R9v", Doc: "stored container values are immutable: a [
 
 // R16h: raft core, second list of pinned mechanisms.
 var rR16h = RuleRef{Name: "R16h", Doc: "Raft core guards, second list: a follower's Match is advanced from a message only when that message is the follower's own append response (a local report that a snapshot was *sent* is not an acknowledgement); RawNode.prevHardSt is written where a Ready is accepted (and at construction), not in Advance, so that a vote or term change made between Ready and Advance is still emitted and persisted", Run: func(c *C) {
-	if sl := c.P.Func(raftPkg, "stepLeader"); sl != nil {
-		of := c.orderFlow(sl, nil, true, "T|cmp:*")
-		n := 0
-		for _, b := range sl.Blocks {
-			for _, in := range b.Instrs {
-				call, ok := in.(*ssa.Call)
-				if !ok || callName(call) != "MaybeUpdate" {
-					continue
-				}
-				n++
-				states, live := of.States(in)
-				good := live
-				for _, st := range states {
-					found := false
-					for f := range st {
-						// MsgAppResp == 4 in raftpb
-						if f == "T|cmp:4==Type" {
-							found = true
-						}
-					}
-					if !found {
-						good = false
-					}
-				}
-				c.Add("R16h", fnName(sl), fmt.Sprintf("Progress.MaybeUpdate #%d is reached only for MsgAppResp", n), call.Pos(), good, "Match is what the leader commits and advertises from: it may only grow on the follower's own acknowledgement")
-			}
-		}
-		c.Count("R16h_match_updates_in_stepLeader", n)
-		c.Min("R16h_match_updates_in_stepLeader", 1)
-	} else {
-		c.Undecided("R16h", "anchor raft.stepLeader")
-	}
+	// MsgAppResp == 4 in raftpb; the update may sit in stepLeader itself or in a helper it hands the message to
+	c.checkOrder("R16h", []ordOb{{Pkg: raftPkg, Fn: "stepLeader", At: "call:MaybeUpdate", AllEdges: true, NeedAll: []string{"T|cmp:4==Type"},
+		What: "Progress.MaybeUpdate is reached only for MsgAppResp (Match is what the leader commits and advertises from: it may only grow on the follower's own acknowledgement)"}})
 	got := c.fieldWriters(raftPkg, "RawNode", "prevHardSt")
 	allowed := map[string]bool{"NewRawNode": true, "RawNode.acceptReady": true, "RawNode.Bootstrap": true}
 	var extra []string
@@ -779,6 +750,14 @@ var rR22d = RuleRef{Name: "R22d", Doc: "contract of DelTTL, which the delete-whe
 		c.Undecided("R22d", "anchor (*MemDb).DelTTL")
 		return
 	}
+	bad, n := c.ttlGoneAtReturns(fn, 0)
+	c.Add("R22d", fnName(fn), "every return has removed the deadline entry or found none", fn.Pos(), len(bad) == 0 && n > 0, "returns that may leave the entry behind: "+strings.Join(bad, ", "))
+}}
+
+// ttlGoneAtReturns: the returns of fn at which the ttlKeys entry of a key parameter may still be there: a return is fine
+// when it follows ttlKeys.Delete of the key, a helper that removes it on all paths, a helper with this very contract, or
+// lies on the not-found edge of a ttlKeys lookup of the key. n is the number of live returns.
+func (c *C) ttlGoneAtReturns(fn *ssa.Function, depth int) (bad []string, n int) {
 	tr := func(in ssa.Instruction, s Set) (Set, bool) {
 		if noReturnCall(in) {
 			return nil, true
@@ -787,11 +766,35 @@ var rR22d = RuleRef{Name: "R22d", Doc: "contract of DelTTL, which the delete-whe
 			if a := c.keyspaceAccess(ci); a != nil && a.Map == "ttlKeys" && a.Method == "Delete" && paramIndex(fn, canon(a.Key)) >= 0 {
 				s["DONE"] = true
 			}
-			// a helper that removes the entry of the key it is given, on all of its paths
-			if cf := callee(ci); cf != nil && cf != fn {
+			if cf := callee(ci); cf != nil && cf != fn && firstParty(cf) {
+				// a helper that removes the entry of the key it is given, on all of its paths
 				for _, pi := range c.ttlRemoverParams(cf) {
 					if pi < len(ci.Call.Args) && paramIndex(fn, canon(ci.Call.Args[pi])) >= 0 {
 						s["DONE"] = true
+					}
+				}
+				// a helper that keeps the same contract (removed, or found none) for a key it is handed
+				if depth < 2 && len(cf.Blocks) > 0 && !s["DONE"] {
+					for pi, a := range ci.Call.Args {
+						if paramIndex(fn, canon(a)) < 0 || pi >= len(cf.Params) || paramIndex(cf, canon(cf.Params[pi])) < 0 {
+							continue
+						}
+						touches := false
+						for _, b := range cf.Blocks {
+							for _, in2 := range b.Instrs {
+								if c2, ok := in2.(ssa.CallInstruction); ok {
+									if a2 := c.keyspaceAccess(c2); a2 != nil && a2.Map == "ttlKeys" && canon(a2.Key) == canon(cf.Params[pi]) {
+										touches = true
+									}
+								}
+							}
+						}
+						if !touches {
+							continue
+						}
+						if b2, n2 := c.ttlGoneAtReturns(cf, depth+1); len(b2) == 0 && n2 > 0 {
+							s["DONE"] = true
+						}
 					}
 				}
 			}
@@ -821,8 +824,6 @@ var rR22d = RuleRef{Name: "R22d", Doc: "contract of DelTTL, which the delete-whe
 	}
 	fl := &Flow{Fn: fn, Must: true, Entry: Set{}, Transfer: tr, EdgeGen: edge}
 	fl.Run()
-	var bad []string
-	n := 0
 	for _, b := range fn.Blocks {
 		for _, in := range b.Instrs {
 			if ret, ok := in.(*ssa.Return); ok {
@@ -835,8 +836,8 @@ var rR22d = RuleRef{Name: "R22d", Doc: "contract of DelTTL, which the delete-whe
 			}
 		}
 	}
-	c.Add("R22d", fnName(fn), "every return has removed the deadline entry or found none", fn.Pos(), len(bad) == 0 && n > 0, "returns that may leave the entry behind: "+strings.Join(bad, ", "))
-}}
+	return bad, n
+}
 
 // R17s: the matcher consumes one subject byte per pattern element.
 var rR17s = RuleRef{Name: "R17s", Doc: "one pattern element, one subject byte: in the main loop of the glob matcher every path from the loop head back to it advances the subject position (an arm that moves on in the pattern without comparing and consuming a subject byte — an escape that is skipped instead of matched — makes the rest of the pattern line up with the wrong bytes); the '*' arm, which recurses and returns, has no such path", Run: func(c *C) {
